@@ -8,6 +8,7 @@ import impl
 import pcommon
 from cxxheaderparser.lexer import LexerTokenStream
 
+TECHNIQUE = 'Lean 4: stream theorems (no layout token is handed out, any layout prefix is skipped) on the regenerated discard sets; whole-parse layout independence decided by correspondence of the parser model and a relayout oracle on the implementation (not a theorem)'
 LEAN_TARGET = "CxxModel.Props.C09"
 THEOREMS = ["Cxx.C09_discard_sets_are_layout", "Cxx.C09_popSignificant_skips_layout", "Cxx.C09_popSignificant_not_layout", "Cxx.C09_next_ignores_layout_prefix", "Cxx.discard_sets_are_layout"]
 ANCHORS = ["lexer.py:", "parser.py:CxxParser._process_pragma_directive", "parser.py:CxxParser._process_include_directive", "lex.py:Lexer.token",
